@@ -239,19 +239,30 @@ func c14Scenarios(tier string) []*Scenario {
 		kind      string
 		sockFault string // "", "before", "mid"
 		hist      bool
+		ndest     int // 0: one destination; 2: two (another transport type, wrapped by the protocols in another way)
 	}
-	vs := []variant{{"compact", "", false}, {"binary", "before", false}, {"compact", "mid", true}}
+	vs := []variant{{"compact", "", false, 0}, {"binary", "before", false, 0}, {"compact", "mid", true, 0}, {"binary", "", false, 2}}
 	if tier == "thorough" {
-		vs = append(vs, variant{"binary", "", true}, variant{"compact", "before", true}, variant{"binary", "mid", false})
+		vs = append(vs, variant{"binary", "", true, 0}, variant{"compact", "before", true, 0}, variant{"binary", "mid", false, 0}, variant{"compact", "", true, 2})
 	}
 	for _, v := range vs {
 		v := v
-		sc := &Scenario{Property: "C14", Name: fmt.Sprintf("M2-report-flush-close-%s-sockfault=%q-hist=%v", v.kind, v.sockFault, v.hist), Ticks: tierInt(tier, 0, 1), Shards: 5, FreeBound: tierInt(tier, 2, 3), BoundSet: true, Bound: tierInt(tier, 1, 2)}
+		name := fmt.Sprintf("M2-report-flush-close-%s-sockfault=%q-hist=%v", v.kind, v.sockFault, v.hist)
+		if v.ndest > 1 {
+			name += fmt.Sprintf("-%d-destinations", v.ndest)
+		}
+		sc := &Scenario{Property: "C14", Name: name, Ticks: tierInt(tier, 0, 1), Shards: 5, FreeBound: tierInt(tier, 2, 3), BoundSet: true, Bound: tierInt(tier, 1, 2)}
 		sc.Body = func(x *Run) {
 			s := newFastSink()
 			x.Vals["sink"] = s
 			x.Cleanup = append(x.Cleanup, s.close)
-			r, err := m3.NewReporter(m3.Options{HostPorts: []string{s.addr}, Service: "svc", Env: "test", Protocol: m3Proto(v.kind), MaxQueueSize: 1})
+			addrs := []string{s.addr}
+			for i := 1; i < v.ndest; i++ {
+				s2 := newFastSink()
+				x.Cleanup = append(x.Cleanup, s2.close)
+				addrs = append(addrs, s2.addr)
+			}
+			r, err := m3.NewReporter(m3.Options{HostPorts: addrs, Service: "svc", Env: "test", Protocol: m3Proto(v.kind), MaxQueueSize: 1})
 			if err != nil {
 				x.failf("new-reporter", "%v", err)
 				return
